@@ -19,6 +19,7 @@ def run(prog, run):
     r2(prog, run)
     r3(prog, run)
     r4(prog, run)
+    r5(prog, run)
 
 
 def r1(prog, run):
@@ -235,3 +236,37 @@ def r4(prog, run):
     else:
         run.violation(rid, 'writeData#accounting', wd.loc(), 'the byte count / hash are not computed from what was written')
     run.info(rid, prog.fn(TM + '::ibbDataIqReceived').loc(), 'the result of writeData() is ignored by ibbDataIqReceived (an acknowledged but unwritten block is caught by the size check when a size is known)')
+
+
+def r5(prog, run):
+    rid = run.rule('C19.R5', 'the SOCKS5 receive slot drains the socket: everything that is buffered when readyRead fires is written (readAll, or bounded reads in a '
+                             'loop) - Qt does not signal readyRead again for data that is already buffered', floor=1)
+    rd = prog.fn(IJ + '::_q_receiveData')
+    reads = [(i, n) for i, n in rd.calls() if rd.cname(n) in ('QIODevice::readAll', 'QIODevice::read', 'QIODevice::readLine', 'QIODevice::peek')]
+    if not reads:
+        raise AnalysisBroken('C19.R5: no socket read found in _q_receiveData')
+    for i, n in reads:
+        run.instance(rid)
+        if rd.cname(n) == 'QIODevice::readAll':
+            run.ok(rid, rd.loc(i), 'readAll()')
+            continue
+        # a bounded read is fine inside a loop
+        b0 = rd.pos(i)[0]
+        seen = set()
+        stack = [s2 for s2 in rd.blocks[b0]['succs'] if s2 is not None]
+        looped = False
+        while stack:
+            x = stack.pop()
+            if x == b0:
+                looped = True
+                break
+            if x in seen:
+                continue
+            seen.add(x)
+            stack.extend(s2 for s2 in rd.blocks[x]['succs'] if s2 is not None)
+        if looped:
+            run.ok(rid, rd.loc(i), '%s inside a loop' % rd.fmt(i, inline=False)[:50])
+        else:
+            run.violation(rid, '_q_receiveData#bounded-read-once', rd.loc(i),
+                          '%s reads a bounded amount once per readyRead: data that is already buffered is never signalled again, so a transfer larger than one '
+                          'block stalls and is reported corrupt while the sender reports success' % rd.fmt(i, inline=False)[:60])
